@@ -61,6 +61,50 @@ MOS = [
 ]
 
 
+def paired_updates(F):
+    """The value map and the recency index of a cache describe the same key set only if they are changed together: whenever
+    a function of VectorCache / QueryHashCache clears the map it also clears the index, and whenever it removes a key from
+    the map (other than the victim pop_lru just removed from the index) it also removes it from the index — on every path
+    to the return.  A stale index key is later popped as the eviction victim, nothing real is evicted, and the map grows
+    past its capacity (seeds C20-b, C20-c)."""
+    out = []
+    for owner, key, val in (("vector_cache::VectorCache", "u64", "CachedVector"), ("query_hash_cache::QueryHashCache", "QueryCacheKey", "CachedQueryResult")):
+        MAPRX = r"HashMap::<(\w+::)?%s, (\w+::)?%s>::" % (key, val)
+        LRURX = r"LruIndex::<(\w+::)?%s>::" % key
+        for name, fn in F.items():
+            if not name.startswith(owner + "::") or "{closure" in name:
+                continue
+            fc = FnCheck(F, name)
+            for op, lop in (("clear", "clear"), ("remove", "remove")):
+                MAP_OP = call(r"= " + MAPRX + op + r"\b", name="cache.%s" % op)
+                LRU_OP = call(r"= " + LRURX + lop + r"\(", name="lru.%s" % lop)
+                if fc.count(MAP_OP) == 0:
+                    continue
+                if op == "remove" and fc.count(call(r"= " + LRURX + r"pop_lru\(", name="pop_lru")) > 0:
+                    continue  # eviction: the victim came out of the index first (O20.5 skeleton obligations)
+                short = "::".join(name.split("::")[-2:])
+                if fc.count(LRU_OP) == 0:
+                    r = fc.reachable(MAP_OP)
+                    out.append(Result("violated" if r.verdict == "holds" else "inconclusive",
+                                      "%s calls %s but never %s: keys stay in the recency index after they left the map; once the cache is refilled such a key is popped as the eviction victim, nothing is evicted and "
+                                      "the cache exceeds its capacity" % (short, MAP_OP.name, LRU_OP.name), queries=r.queries, seconds=r.seconds,
+                                      sample={"fn": name, "kind": "FOLLOWS", "A": MAP_OP.name, "B": LRU_OP.name, "exit": "return"}))
+                elif op == "clear":
+                    out.append(fc.follows(MAP_OP, LRU_OP, exit="return"))
+                else:
+                    # remove: the index removal follows on the path where the key was present in the map
+                    # both remove functions answer `true` exactly when the key was in the map: every path to that answer passes lru.remove
+                    RET_TRUE = stmt(r"^_0 = const true;$", name="return true (key was cached)")
+                    out.append(fc.precedes(LRU_OP, RET_TRUE) if fc.count(RET_TRUE) else Result("inconclusive", "%s: no `return true` found" % short))
+    if not out:
+        out.append(Result("inconclusive", "no clear/remove site found in VectorCache / QueryHashCache"))
+    return out
+
+
+MOS.append(MO("O20.8/paired_updates", "VectorCache / QueryHashCache: map.clear() is followed by lru.clear(), map.remove(key) (key present) by lru.remove(key), on every path to the return",
+              paired_updates, functions=[("vector_cache.rs", "clear"), ("vector_cache.rs", "remove"), ("query_hash_cache.rs", "clear"), ("query_hash_cache.rs", "remove_entry")]))
+
+
 def capacity_decisions(F):
     """The four places where a size is compared with its bound, as DECIDES obligations: whenever the structure is at (or
     above) its bound the evicting / draining call is reached before the new entry goes in — for every value of the size and
